@@ -214,7 +214,7 @@ func (r *R) rawIndex(ctx sdk.Context, prefix []byte, f func(key []byte, val stri
 }
 
 func (r *R) paramsStr(p v1.Params) string {
-	return fmt.Sprintf("%s:%s:%s:%s:%d:%d", p.TokenTaxRate.BigInt(), p.IssueTokenBaseFee.Denom, p.IssueTokenBaseFee.Amount,
+	return fmt.Sprintf("%s:%s:%s:%s:%d:%d", p.TokenTaxRate.BigInt(), hx.Dash(p.IssueTokenBaseFee.Denom), p.IssueTokenBaseFee.Amount,
 		p.MintTokenFeeRatio.BigInt(), b01(p.EnableErc20), b01(p.Beacon != ""))
 }
 
@@ -312,7 +312,7 @@ func u64(s string) uint64 {
 func (r *R) parseParams(a map[string]string) v1.Params {
 	p := v1.Params{
 		TokenTaxRate:      decOfRaw(a["tax"]),
-		IssueTokenBaseFee: sdk.Coin{Denom: a["feedenom"], Amount: intOf(a["feeamt"])},
+		IssueTokenBaseFee: sdk.Coin{Denom: hx.Undash(a["feedenom"]), Amount: intOf(a["feeamt"])},
 		MintTokenFeeRatio: decOfRaw(a["mintratio"]),
 		EnableErc20:       a["erc20"] == "1",
 	}
